@@ -14,7 +14,11 @@
    is-connected words. One granted step = perform the access the thread is parked at and run to the
    next access (what the deterministic scheduler of the harness does).
    Definitions only. *)
-Require Import V.Base.MachineInt V.Generated.GenConsts V.Model.LogBase V.Model.Descriptor V.Model.Sched.
+Require Import V.Base.MachineInt.
+Require Import V.Generated.GenConsts.
+Require Import V.Model.LogBase.
+Require Import V.Model.Descriptor.
+Require Import V.Model.Sched.
 Open Scope Z_scope.
 
 (* ---- geometry / identity of the log (constant during a run) ---- *)
